@@ -17,7 +17,20 @@ type FakeDNS struct {
 	queries map[string]int      // A queries seen per name
 	lastQ   map[string]time.Time
 	rounds  map[string]int // distinct polling rounds per name (a repeat within 1 s is a retry)
+	// scripts: per name the answer of polling round 1, 2, ... (an entry that is nil
+	// means NXDOMAIN); the last entry repeats. A scripted name ignores Set.
+	scripts map[string][][]string
 	Log     []string
+}
+
+// Script installs the per-round answers of name.
+func (d *FakeDNS) Script(name string, rounds [][]string) {
+	d.mu.Lock()
+	if d.scripts == nil {
+		d.scripts = map[string][][]string{}
+	}
+	d.scripts[strings.ToLower(name)] = rounds
+	d.mu.Unlock()
 }
 
 // StartFakeDNS binds addr (e.g. 127.0.0.1:53).
@@ -91,6 +104,16 @@ func (d *FakeDNS) serve() {
 				d.rounds[name]++
 			}
 			d.lastQ[name] = time.Now()
+		}
+		if sc, ok := d.scripts[name]; ok && len(sc) > 0 {
+			idx := d.rounds[name] - 1
+			if idx < 0 {
+				idx = 0
+			}
+			if idx >= len(sc) {
+				idx = len(sc) - 1
+			}
+			ips, known = sc[idx], true
 		}
 		d.mu.Unlock()
 		var answers [][]byte
